@@ -455,10 +455,24 @@ def wrap_namespace(ctx, world):
             return f"?{str(t)[:40]}"
 
         import itertools
+        from ..terms import walk as _walk
+
+        # feasibility: when the pass-through set itself lists `type`, "type(obj) is type" implies "type(obj) in <pass-through types>"
+        type_passes = False
+        for sub in _walk(lp.next):
+            if sub.op == "cmp" and sub.opname in ("In", "NotIn") and ty(sub.l):
+                r_ = sub.r
+                if r_.op == "ref" and r_.ref.kind == "repo" and r_.ref.okind == "assign":
+                    r_ = world.ev.ev(r_.ref.node, Scope(), r_.ref.mod)
+                els_ = r_.elts if r_.op in ("set", "tuple", "list") else (r_.args[0].elts if (r_.op == "call" and r_.args and r_.args[0].op in ("set", "tuple", "list")) else ())
+                if any(tyty(e) for e in els_):
+                    type_passes = True
 
         ok = True
         for val in itertools.product((True, False), repeat=5):
             a0, a1, a2, a3, a4 = val
+            if (a2 and not a1) or (type_passes and a2 and not a4):
+                continue  # a class is callable; `type` is a listed pass-through type
             want = "notrace" if a0 else ("primitive" if (a1 and not a2) else ("intdtype" if (a2 and a3) else ("id" if a4 else "none")))
             dec = lambda a, val=val: (val[kind_of_atom(a)] if kind_of_atom(a) is not None else None)
             cs = cases(specialise(lp.next, dec))
